@@ -84,3 +84,58 @@ structure BlockView where
 def totalScore (ts : List TermList) (doc : Nat) : Nat := (ts.map (·.scoreOf doc)).sum
 
 end TantivyModel.Wand
+
+/-! ## a generic dynamic-pruning machine over a union of posting lists
+
+Every document-at-a-time pruning driver over a union of term scorers (`block_wand`, MaxScore …)
+does three kinds of things: it moves ONE scorer forward past documents, it scores the smallest
+current document with all the scorers that contain it, or it stops. `Machine` makes the side
+conditions explicit; `Proofs/WandMachine.lean` proves that every run whose moves only pass over
+*dead* documents (total score not above the current threshold) computes exactly what the
+exhaustive loop computes, for every monotone callback. -/
+namespace TantivyModel.Wand
+
+abbrev Postings := List (Nat × Nat)
+
+/-- score of `doc` in the remaining postings of one scorer (0 if absent) -/
+def scoreIn (p : Postings) (doc : Nat) : Nat :=
+  match p.find? (·.1 == doc) with
+  | some x => x.2
+  | none => 0
+
+/-- total score of a document over the remaining postings of all scorers -/
+def unionTotal (ps : List Postings) (doc : Nat) : Nat := (ps.map (scoreIn · doc)).sum
+
+/-- the exhaustive loop over the documents `lo, lo+1, …, lo+n-1`: offer a document iff its total
+score is above the threshold (documents with total 0 do not match) -/
+def exhRange {σ : Type} (cb : σ → Nat → Nat → σ × Nat) (total : Nat → Nat) :
+    Nat → Nat → σ × Nat → σ × Nat
+  | _, 0, st => st
+  | lo, n + 1, (s, θ) =>
+    exhRange cb total (lo + 1) n (if θ < total lo then cb s lo (total lo) else (s, θ))
+
+inductive Action where
+  /-- `scorers[i].seek(target)` -/
+  | seek (i target : Nat)
+  /-- score document `d` (the smallest current document) and advance the scorers positioned on it -/
+  | eval (d : Nat)
+
+/-- `seek`: drop the postings before `target` -/
+def seekP (p : Postings) (target : Nat) : Postings := p.dropWhile (·.1 < target)
+
+/-- apply `f` to the `i`-th element -/
+def modifyAt {β : Type} (f : β → β) : List β → Nat → List β
+  | [], _ => []
+  | x :: xs, 0 => f x :: xs
+  | x :: xs, i + 1 => x :: modifyAt f xs i
+
+/-- run a list of actions; the driver stops after the last one -/
+def runMachine {σ : Type} (cb : σ → Nat → Nat → σ × Nat) :
+    List Action → List Postings → σ × Nat → σ × Nat
+  | [], _, st => st
+  | .seek i t :: rest, ps, st => runMachine cb rest (modifyAt (seekP · t) ps i) st
+  | .eval d :: rest, ps, (s, θ) =>
+    runMachine cb rest (ps.map (seekP · (d + 1)))
+      (if θ < unionTotal ps d then cb s d (unionTotal ps d) else (s, θ))
+
+end TantivyModel.Wand
